@@ -29,6 +29,7 @@ def write_if_changed(path: Path, text: str) -> bool:
 def regenerate(names):
     """names: list of generator names (each writes Generated/<Name>.lean)."""
     from harness import extractors  # noqa: F401  (registers generators)
+    from harness import extractors_layers  # noqa: F401  (C09: LayerClasses)
 
     info = {"obligations": 0, "files": {}}
     for n in names:
